@@ -19,6 +19,28 @@ from .. import common, fakes, lifecycle, loop as ctl
 def fake_case(seed: int) -> dict:
     rng = random.Random(seed)
     n_events = rng.choice([0, 1, 2, 5, 12, 40])
+    # every third case emits a well-formed stream of all event kinds (trace, trace calls, command loops, prompts, output) instead of
+    # output only, and every hook of the recording plugin is slow: the completion order of the hooks is what a plugin observes
+    wf = seed % 3 == 0
+    stream: list = []
+    if wf:
+        from .c11 import make_event
+        call = prompt = 0
+        stream.append(['st', 1, 1, None])
+        while len(stream) < n_events:
+            call += 1
+            stream.append(['sc', 1, call, 0, call, 100, 0])
+            if rng.random() < 0.6:
+                stream.append(['sl', 1, call])
+                for _ in range(rng.randint(1, 2)):
+                    prompt += 1
+                    stream += [['sp', 1, call, prompt, prompt], ['ep', 1, prompt, 1]]
+                stream.append(['el', 1, call])
+            if rng.random() < 0.5:
+                stream.append(['so', 1, len(stream)])
+            stream.append(['ec', 1, call])
+        stream.append(['et', 1])
+        n_events = len(stream)
     slow = rng.choice([0, 0, 1, 3])            # extra scheduler steps a plugin takes per event
     kill = rng.random() < 0.35
     emit_before_start_ack = False
@@ -51,6 +73,26 @@ def fake_case(seed: int) -> dict:
             @hookimpl
             async def on_end_run(self, context: Any, event: Any) -> None:
                 log.append('endRun')
+
+        if wf:
+            index: dict = {}
+
+            def key(ev: Any) -> tuple:
+                return (type(ev).__name__, getattr(ev, 'trace_call_no', None) if 'TraceCall' in type(ev).__name__ or 'Cmdloop' in type(ev).__name__ else None,
+                        getattr(ev, 'prompt_no', None), getattr(ev, 'text', None))
+
+            def slow_hook(name: str) -> Any:
+                async def h(self: Any, context: Any, event: Any) -> None:
+                    for _ in range(slow + 1):
+                        await asyncio.sleep(0)
+                    n = index[key(event)]
+                    delivered.append(n)
+                    log.append(f'deliver {n}')
+                h.__name__ = name
+                return hookimpl(h)
+            for hn in ('on_start_trace', 'on_end_trace', 'on_start_trace_call', 'on_end_trace_call', 'on_start_cmdloop', 'on_end_cmdloop',
+                       'on_start_prompt', 'on_end_prompt', 'on_write_stdout'):
+                setattr(Rec, hn, slow_hook(hn))
         nl.register(Rec())
         await nl.start()
         run_task = asyncio.ensure_future(nl.run())
@@ -72,7 +114,12 @@ def fake_case(seed: int) -> dict:
         for k in range(n_events):
             if k == exit_after and rng.random() < 0.5:
                 break
-            child.emit(E.OnWriteStdout(written_at=now(), run_no=1, trace_no=1, text=str(k)))
+            if wf:
+                ev = make_event(stream[k], 1)
+                index[key(ev)] = k
+                child.emit(ev)
+            else:
+                child.emit(E.OnWriteStdout(written_at=now(), run_no=1, trace_no=1, text=str(k)))
             emitted.append(k)
             log.append(f'emit {k}')
             for _ in range(rng.choice([0, 0, 0, 1, 2])):
